@@ -18,7 +18,15 @@ strategy order/subset, while these monitors observe the returned objects:
                        from the on_misfold callback); every step goes through monitors (a)-(d), so state carried from
                        an earlier call (memo, statistics, adaptive order) that changes a later verdict is seen;
  (f) healing loop    — max_retries 0..15, confidence_decay 0..2.5, success on any attempt (or never): every reported
-                       confidence of a valid result stays in [0,1].
+                       confidence of a valid result stays in [0,1];
+ (g) neighbours      — several Chaperone instances live in one process: plain ones are created (and used) first, then an
+                       independently CONFIGURED one (a co-chaperone preprocessor that visibly rewrites the text, given to
+                       the constructor and/or registered later; its own strategy list, also edited in place; its own
+                       on_misfold) is created and used on the same texts, then more plain ones are created. The plain
+                       instances — older and newer than the configured one, default-constructed or with explicit
+                       None/{} arguments or their own strategy list — and the configured instance on a schema nothing was
+                       registered for (a distinct class of the same name) fold the texts through monitors (a)-(d): whatever
+                       one instance was given (class-level / module-level / shared-default state) must not reach another.
 """
 import json
 import sys
@@ -33,13 +41,19 @@ TECHNIQUE = ("runtime monitoring: real fold()/fold_enhanced()/heal() on generate
              "strategy orders; provenance oracle (independent raw_decode extractor + generator ground truth + own coercion "
              "table), direct re-validation, plain-vs-enhanced differential, statistics/on_misfold counters as observation points; "
              "long-lived-instance sessions (repeated texts, per-call strategy lists, twin/sibling schemas, re-entrant callback folds) "
-             "and healing loops over unusual retry/decay configurations go through the same monitors")
+             "and healing loops over unusual retry/decay configurations go through the same monitors; neighbour sessions: plain "
+             "instances created before/after an independently configured one (rewriting co-chaperone, own strategies/on_misfold) "
+             "are judged by the same monitors, with call counters inside the foreign preprocessor/callback")
 RULE = ("cases = fixed witness raws x all 64 strategy orders, then seeded random (schema, instance, semantic swap, writer style, "
-        "wrapper, order), a share of them continued as a healing-loop run or as a multi-fold session on one instance; non-trivial = the raw is strict-valid JSON for the schema, or it is not and the fold is valid; "
+        "wrapper, order), a share of them continued as a healing-loop run, as a multi-fold session on one instance or as a neighbour session "
+        "(several instances, one of them configured); non-trivial = the raw is strict-valid JSON for the schema, or it is not and the fold is valid; "
         "distinct = (schema shape, corruption labels, strategy used, valid)")
 ASSUMPTIONS = [
     "schemas are plain pydantic field models (int/float/str/bool/list/Optional/one nested model), no custom validators, aliases or extra='forbid'",
-    "raw text is a str; no co-chaperone preprocessors; on_misfold (when set) does not raise",
+    "raw text is a str; on_misfold (when set) does not raise",
+    "no co-chaperone preprocessor is registered on the instance/schema pair whose fold is judged (folds through a preprocessor are run, "
+    "counted and not judged); a preprocessor given to ANOTHER instance, or to the same instance for ANOTHER schema class, is part of the workload",
+    "an instance's public `strategies` list may be edited in place by its owner; the list handed to a constructor is not shared by the check between instances",
     "strategy lists are non-empty lists of FoldingStrategy members (an empty list means 'default' in the API)",
     "non-finite floats only occur in top-level fields of generated instances",
     "pydantic lax-mode validation defines 'instance of the schema' (the library validates with model_validate)",
@@ -138,6 +152,18 @@ def orders():
 
 N_SWEEP = len(FIXED) * 64
 
+_DEFAULT_ORDER = None
+
+
+def default_order():
+    """The documented default strategy order: read once per process off the first default-constructed instance, before the
+    workload has configured or edited anything (a copy — later cases compare against it, they do not re-read it)."""
+    global _DEFAULT_ORDER
+    if _DEFAULT_ORDER is None:
+        from operon_ai.organelles.chaperone import Chaperone
+        _DEFAULT_ORDER = tuple(Chaperone(silent=True).strategies)
+    return list(_DEFAULT_ORDER)
+
 
 def plan(tier):
     extra = 100000 if tier == "quick" else 2000000
@@ -160,6 +186,9 @@ def plan(tier):
                 "raws_with_literal_typography": 800, "strict_valid_typography_raws": 100, "strict_first_exact_typography": 60,
                 "sessions": 500, "session_steps": 2500, "session_refolds_of_accepted_text": 1000, "session_refold_now_rejected": 150,
                 "session_reentrant_folds": 500, "strategy_membership_checked": 6000,
+                "neighbour_sessions": 800, "neighbour_configured_folds": 3000, "neighbour_preprocessor_changed_text": 3000,
+                "neighbour_judged_folds": 5000, "neighbour_judged_strict_first_exact": 800,
+                "neighbour_strategies_edited_in_place": 250, "neighbour_configured_judged_on_namesake": 800,
                 "stats:attempts:strict": 10000, "stats:attempts:extraction": 10000,
                 "stats:attempts:lenient": 10000, "stats:attempts:repair": 10000,
             }}
@@ -179,7 +208,8 @@ def run_case(ctx, n):
                 grounds.append(nground)
         case = {"kind": "fixed", "item": n // 64, "shape": shape, "raw": raw, "ground": grounds,
                 "order": order, "labels": ("fixed%d" % (n // 64),), "via_ctor": n % 2 == 0, "heal": (n % 64) in (0, 15, 40),
-                "session": (n % 64) in (3, 27, 52) and len(raw) < 2000, "related": related}
+                "session": (n % 64) in (3, 27, 52) and len(raw) < 2000, "related": related,
+                "neighbour": ctx.rng("neighbour", n) if (n % 64) in (5, 33) and len(raw) < 2000 else None}
         return judge(ctx, case, ctx.rng(n))
     rng = ctx.rng(n)
     hs = lambda r: G.hostile_string(r, O.n_groups_changing)  # noqa: E731
@@ -214,6 +244,8 @@ def run_case(ctx, n):
     case = {"kind": "random", "shape": shape, "raw": raw, "ground": grounds, "order": order, "labels": tuple(labels),
             "via_ctor": rng.random() < 0.5, "heal": rng.random() < 0.08,
             "session": rng.random() < 0.06 and len(raw) < 3000, "related": [text, decoy_text]}
+    nrng = ctx.rng("neighbour", n)      # its own stream: the other monitors see the same cases with or without (g)
+    case["neighbour"] = nrng if nrng.random() < 0.05 and len(raw) < 3000 else None
     return judge(ctx, case, rng)
 
 
@@ -224,6 +256,8 @@ def _desc(case, **kw):
          "via_constructor": case["via_ctor"]}
     if case.get("kind") == "session":
         d["session"] = case["session"]
+    if case.get("kind") == "neighbour":
+        d["neighbour"] = case["neighbour"]
     d.update(kw)
     return d
 
@@ -250,6 +284,7 @@ def judge(ctx, case, rng):
 
     shape, raw, order = case["shape"], case["raw"], case["order"]
     S = G.build_model(shape)
+    default_order()
     for lb in case["labels"]:
         ctx.count("op:" + lb)
     ctx.count("order:" + ("default" if not order else "len%d" % len(order)))
@@ -294,6 +329,10 @@ def judge(ctx, case, rng):
     # ---- one long-lived instance folding this and related texts repeatedly
     if case.get("session"):
         session_monitor(ctx, case, rng)
+
+    # ---- several instances in one process, one of them configured
+    if case.get("neighbour") is not None:
+        neighbour_monitor(ctx, case, case["neighbour"])
 
     # ---- evidence
     if strict_valid or enh.valid:
@@ -425,7 +464,7 @@ def session_monitor(ctx, case, rng):
     ch = Chaperone(strategies=list(ctor), on_misfold=on_misfold, silent=True) if ctor else Chaperone(on_misfold=on_misfold, silent=True)
     # what a call without a per-call list must use for the whole life of the instance: the constructor's list, or the
     # documented default order (read off a fresh instance, not off the long-lived one)
-    configured = list(ctor) if ctor else list(Chaperone(silent=True).strategies)
+    configured = list(ctor) if ctor else default_order()
     history = []
     accepted = set()        # (text, schema index) already reported valid by this instance
     for step in range(rng.randint(3, 7)):
@@ -528,6 +567,171 @@ def provenance(ctx, case, which, X, S, used, FS, eff):
     mech = "fabricated-value:%s" % (used.value if used is not None else "plain-fold")
     ctx.violation(mech, "valid structure %r (via %s) cannot be derived from any JSON in the raw text, from the ground truth, or through the coercion table (%s)" % (
         X, which, last or "no object candidate"), _desc(case, candidates=[k for _, k in (cands + cands_gt)[:6]]))
+
+
+PRE_KINDS = ("replace", "swapcase", "digits", "empty", "prose", "truncate")
+_DIGIT_SHIFT = {48 + i: 48 + (i + 1) % 10 for i in range(10)}
+PLAIN_KINDS = ("default", "default", "callback", "explicit-none", "explicit-empty", "ordered")
+
+
+def _preprocess(kind, text, foreign_text):
+    if kind == "replace":
+        return foreign_text                      # another, schema-valid JSON text altogether
+    if kind == "swapcase":
+        return text.swapcase()
+    if kind == "digits":
+        return text.translate(_DIGIT_SHIFT)
+    if kind == "empty":
+        return ""
+    if kind == "prose":
+        return "Sure! " + text + " Hope that helps."
+    return text[: len(text) // 2]
+
+
+def neighbour_monitor(ctx, case, rng):
+    """(g) Several instances in one process. Plain instances (nothing registered on them) are created and used, then ONE
+    independently configured instance — a co-chaperone preprocessor for the case's schema that rewrites the text, passed to
+    the constructor and/or registered afterwards; its own strategy list (also edited in place); its own on_misfold — is
+    created and used on the same texts, then further plain instances are created. Every fold of a plain instance, and of the
+    configured instance against a distinct schema class of the same name, goes through monitors (a)-(d) exactly as a fresh
+    fold does. Folds THROUGH the preprocessor are run and counted, not judged."""
+    from operon_ai.organelles.chaperone import Chaperone, FoldingStrategy as FS
+    ctx.count("neighbour_sessions")
+    shape = case["shape"]
+    S = G.build_model(shape)
+    twin, namesake = G.build_model(shape, twin=True), G.build_model(shape, twin="namesake")
+    texts = [case["raw"]] + [t for t in case.get("related", []) if t != case["raw"]][:1]
+    hs = lambda r: G.hostile_string(r, O.n_groups_changing)  # noqa: E731
+    foreign_text = G.write(G.gen_instance(rng, shape, 0.0, hs), G.Style(), rng)
+    state = {"phase": "setup"}
+    log = []
+    info = {"texts": texts, "log": log}
+
+    def make_pre(kind):
+        def pre(text):
+            out = _preprocess(kind, text, foreign_text)
+            if state["phase"] == "judged":
+                ctx.count("neighbour_foreign_preprocessor_calls")     # recorded; the verdict comes from the fold's result
+            else:
+                ctx.count("neighbour_preprocessor_calls")
+                if out != text:
+                    ctx.count("neighbour_preprocessor_changed_text")
+            return out
+        return pre
+
+    def plain(kind):
+        """A Chaperone with no co-chaperone of its own -> (instance, the order a call without a list must use, its misfolds)."""
+        mis = []
+
+        def cb(e):
+            mis.append(e)
+            ctx.count("misfold_callbacks")
+        if kind == "default":
+            return Chaperone(silent=True), default_order(), mis
+        if kind == "callback":
+            return Chaperone(on_misfold=cb, silent=True), default_order(), mis
+        if kind == "explicit-none":
+            return Chaperone(max_retries=3, strategies=None, co_chaperones=None, on_misfold=None, silent=True), default_order(), mis
+        if kind == "explicit-empty":
+            return Chaperone(strategies=[], co_chaperones={}, on_misfold=cb, silent=True), default_order(), mis
+        o = rng.choice(orders())
+        return Chaperone(strategies=list(o), on_misfold=cb, silent=True), list(o), mis
+
+    def judged_fold(who, inst, configured, mis, ti, schema, schema_name):
+        order = rng.choice(orders()) if rng.random() < 0.2 else None
+        eff = list(order) if order else list(configured)
+        log.append({"instance": who, "text": ti, "schema": schema_name, "order": [s.value for s in order] if order else "default"})
+        sub = {"kind": "neighbour", "shape": shape, "raw": texts[ti], "ground": case["ground"], "order": order,
+               "labels": case["labels"], "via_ctor": False, "neighbour": dict(info, log=list(log))}
+        del mis[:]
+        before = state["phase"]
+        state["phase"], state["subject"] = "judged", who
+        try:
+            res = {}
+            for api in rng.choice([("fold", "fold_enhanced"), ("fold_enhanced", "fold")]):
+                fn = inst.fold if api == "fold" else inst.fold_enhanced
+                res[api], _ = _call(ctx, sub, api, (lambda: fn(texts[ti], schema, list(order))) if order else (lambda: fn(texts[ti], schema)))
+        finally:
+            state["phase"] = before
+        if res["fold"] is None or res["fold_enhanced"] is None:
+            return
+        ctx.count("neighbour_judged_folds")
+        strict_valid, E = raw_facts(ctx, texts[ti], schema)
+        if strict_valid and eff[0] == FS.STRICT:
+            ctx.count("neighbour_judged_strict_first_exact")
+        assess(ctx, sub, schema, res["fold_enhanced"], res["fold"], eff, list(mis), strict_valid, E)
+
+    # ---- plain instances that exist before anything is configured; some are used already
+    older = []
+    for i in range(rng.randint(1, 2)):
+        kind = rng.choice(PLAIN_KINDS)
+        inst, conf, mis = plain(kind)
+        older.append(("older%d:%s" % (i, kind), inst, conf, mis))
+        if rng.random() < 0.5:
+            judged_fold(older[-1][0] + ":before-configuring", inst, conf, mis, 0, S, "same")
+
+    # ---- the configured instance
+    pre_kind = rng.choice(PRE_KINDS)
+    via = rng.choice(["register", "register", "constructor", "constructor+register"])
+    ctor = rng.choice([None, None, rng.choice(orders())])
+    cmis = []
+
+    def ccb(e):
+        cmis.append(e)
+        # recorded, not judged: the statement says nothing about who is told of a misfold
+        ctx.count("neighbour_foreign_misfold_callbacks" if state["phase"] == "judged" and state["subject"] != "configured" else "misfold_callbacks")
+    kw = {"on_misfold": ccb} if rng.random() < 0.6 else {}
+    if ctor:
+        kw["strategies"] = list(ctor)
+    if via == "constructor":
+        kw["co_chaperones"] = {S: make_pre(pre_kind)}
+    elif via == "constructor+register":
+        kw["co_chaperones"] = {twin: make_pre(rng.choice(PRE_KINDS))}
+    cfg = Chaperone(silent=True, **kw)
+    if via != "constructor":
+        cfg.register_co_chaperone(S, make_pre(pre_kind))
+    cconf = list(ctor) if ctor else default_order()
+    edit = None
+    if not ctor and rng.random() < 0.5:
+        # the owner edits its own (default) list in place
+        edit = rng.choice(["reverse", "drop-first", "replace"])
+        if edit == "reverse":
+            cfg.strategies.reverse()
+        elif edit == "drop-first":
+            del cfg.strategies[0]
+        else:
+            cfg.strategies[:] = list(rng.choice(orders()))
+        cconf = list(cfg.strategies)
+        ctx.count("neighbour_strategies_edited_in_place")
+    info["configured"] = {"preprocessor": pre_kind, "given_via": via, "strategies": [s.value for s in ctor] if ctor else "default",
+                          "edited_in_place": edit, "on_misfold": "on_misfold" in kw, "foreign_text": foreign_text}
+    state["phase"] = "configured"
+    for ti in range(len(texts)):
+        for api in ("fold", "fold_enhanced"):
+            try:
+                r = getattr(cfg, api)(texts[ti], S)
+                ctx.count("neighbour_configured_folds")
+                ctx.count("neighbour_configured_folds_valid" if r.valid else "neighbour_configured_folds_invalid")
+            except Exception:
+                ctx.count("neighbour_configured_folds_raised")       # through a preprocessor: outside the judged domain
+
+    # ---- judged: older plain instances, newer plain instances, and the configured one on a schema it has nothing for
+    subjects = list(older)
+    for i in range(rng.randint(1, 2)):
+        kind = rng.choice(PLAIN_KINDS)
+        inst, conf, mis = plain(kind)
+        subjects.append(("newer%d:%s" % (i, kind), inst, conf, mis))
+    for who, inst, conf, mis in subjects:
+        for ti in range(len(texts)):
+            if ti == 0 or rng.random() < 0.5:
+                judged_fold(who, inst, conf, mis, ti, S, "same")
+        if rng.random() < 0.25:
+            try:        # the configured one keeps working in between
+                cfg.fold(texts[0], S) if rng.random() < 0.5 else cfg.fold_enhanced(texts[0], S)
+            except Exception:
+                ctx.count("neighbour_configured_folds_raised")
+    judged_fold("configured", cfg, cconf, cmis, 0, namesake, "namesake")
+    ctx.count("neighbour_configured_judged_on_namesake")
 
 
 JUNK_OUTPUTS = ["not json at all", "", "{", '{"unrelated": 1', "[1, 2", "sorry \u2014 I can\u2019t", "{'k': }"]
